@@ -147,6 +147,10 @@ def wl_bloom(ctx, rng, case):
         other_before = state_bloom(other)
         before = state_bloom(f, path)
         done = reads_bloom(rng, f, keys, other, sc, hf, counting)
+        for k in keys + ["absent-key", b"absent-bytes"]:
+            f.check(k)
+            k in f
+        done.append("check_all_keys")
         case.op("reads", done)
         same(ctx, before, state_bloom(f, path), f"{case.desc['cls']} after read-only calls {sorted(set(done))}")
         same(ctx, other_before, state_bloom(other), "the other operand of a set operation")
@@ -243,6 +247,10 @@ def wl_expanding(ctx, rng, case):
                 f.export(io.BytesIO())
             else:
                 (f.expansions, f.false_positive_rate, f.estimated_elements, f.elements_added, f.hash_function)
+        for k in keys + ["absent"]:
+            f.check(k)
+            k in f
+        done.append("check_all_keys")
         case.op("reads", done)
         same(ctx, before, state_expanding(f), f"{cls.__name__} after read-only calls {sorted(set(done))}")
         ctx.count("read_batches")
@@ -321,6 +329,10 @@ def wl_sketch(ctx, rng, case):
                 P.CountMinSketch(width=w, depth=d, **bl.kw_hash(hf)).join(f)
             elif c == "tables":
                 (getattr(f, "heavy_hitters", None), getattr(f, "meets_threshold", None), getattr(f, "number_heavy_hitters", None), getattr(f, "threshold", None))
+        for k in keys + ["absent"]:
+            f.check(k)
+            k in f
+        done.append("check_all_keys")
         case.op("reads", done)
         same(ctx, before, state_sketch(f), f"{cls_name} after read-only calls {sorted(set(done))}")
         ctx.count("read_batches")
@@ -392,6 +404,10 @@ def wl_cuckoo(ctx, rng, case):
                 f.load_factor()
             else:
                 (f.elements_added, f.capacity, f.max_swaps, f.bucket_size, f.buckets, f.expansion_rate, f.error_rate, f.auto_expand, f.fingerprint_size_bits, f.fingerprint_size)
+        for k in keys + ["absent", b"nope"]:  # and a full sweep of look-ups over every key
+            f.check(k)
+            k in f
+        done.append("check_all_keys")
         case.op("reads", done)
         same(ctx, before, state_cuckoo(f, cfg.counting), f"{case.desc['cls']} after read-only calls {sorted(set(done))}")
         ctx.count("read_batches")
@@ -449,6 +465,9 @@ def wl_quotient(ctx, rng, case):
             (f.quotient, f.remainder, f.num_elements, f.elements_added, f.bits_per_elm, f.size, f.load_factor, f.auto_expand, f.max_load_factor)
         else:
             other.merge(f)
+    for h in U:
+        f.check_alt(h)
+    done.append("check_all_hashes")
     case.op("reads", done)
     same(ctx, before, state_qf(f), f"QuotientFilter after read-only calls {sorted(set(done))}")
     ctx.count("read_batches")
